@@ -1,5 +1,5 @@
 (* C15: extraction of the FIFO control machine (FifoDefs.v) for the correspondence run. *)
 Require Extraction.
 Require Import ExtrOcamlBasic.
-From Gatery Require Import FifoDefs FifoTxDefs.
-Extraction "c15_model.ml" init step observe gray_enc gray_dec tinit tstep tobserve.
+From Gatery Require Import FifoDefs FifoTxDefs FifoStrmDefs.
+Extraction "c15_model.ml" init step observe gray_enc gray_dec tinit tstep tobserve strm_out strm_step.
